@@ -1391,6 +1391,30 @@ class Fxp():
 
     __imul__ = __mul__
 
+    def __matmul__(self, x):
+        from .functions import matmul
+
+        if not isinstance(x, Fxp):
+            x = self._convert_op_input_value(x)
+            _sizing = self.config.const_op_sizing
+        else:
+            _sizing = self.config.op_sizing
+
+        return matmul(self, x, out=self.config.op_out, out_like=self.config.op_out_like, sizing=_sizing, method=self.config.op_method)
+
+    def __rmatmul__(self, x):
+        from .functions import matmul
+
+        if not isinstance(x, Fxp):
+            x = self._convert_op_input_value(x)
+            _sizing = self.config.const_op_sizing
+        else:
+            _sizing = self.config.op_sizing
+
+        return matmul(x, self, out=self.config.op_out, out_like=self.config.op_out_like, sizing=_sizing, method=self.config.op_method)
+
+    __imatmul__ = __matmul__
+
     def __truediv__(self, x):
         from .functions import truediv
 
